@@ -53,7 +53,7 @@ class C17(Spec):
     lean_module = "NunVerif.Props.C17Close"
     theorems = ["Nun.C17_counter_equals_bound_sessions", "Nun.C17_usedb_keeps_invariant", "Nun.C17_disconnect_keeps_invariant", "Nun.applyChange_frame", "Nun.connInv_start",
                 "Nun.C17_failed_usedb_noop", "Nun.setValue_conns", "Nun.C17_left_unbound_noop", "Nun.C17_close_removes_session",
-                "Nun.C17_tcp_disconnect_releases_unconditionally", "Nun.C17_ws_disconnect_releases_unconditionally", "Nun.C17_tcp_leave_handling_before_release", "Nun.C17_ws_release_is_reached_from_on_close_and_from_drop"]
+                "Nun.C17_tcp_disconnect_releases_unconditionally", "Nun.C17_ws_disconnect_releases_unconditionally", "Nun.C17_tcp_leave_handling_before_release", "Nun.C17_ws_release_is_reached_from_on_close_and_from_drop", "Nun.C20_trailer_arms_of_the_source"]
     rule = ("all sequences of length L over {use-db a, use-db b, wrong token, user token, unknown db, disconnect (tcp/ws sequence), one-shot HTTP requests} x 3 sessions x 2 databases, "
             "with a watcher of $connections (also behind a subscription that outlived its session); plus seeded random longer sequences. After every step the reference session table is compared with the counter, the $connections value and the watcher's notifications. "
             "non-trivial = some session binds and some session leaves; distinct by trace hash")
